@@ -113,3 +113,211 @@ def gen_consts(v):
                                  'libs/acn/E131Header.h', 'libs/acn/DMPE131Inflator.h',
                                  'libs/acn/DMPHeader.h', 'libs/acn/DMPAddress.h'],
                             ents, os.path.join(v.VERIF, 'props', ID, 'coq', 'Gen.v'))
+
+
+RULE = ('frames of every length 0-512 x {random, all-equal, ramp, alternating, no-triple stretches, runs of exactly '
+        '2/3/126/127/128/129/254/255, literal tails of 125-131 after a run, frames whose RLE length equals their slot '
+        'count} x encoder capacities {0..20, encoded length -2..+2, 512, 1310}; decoder on every truncation of valid '
+        'encodings + random bytes x start channels around 0/511/512 x receiver buffer {unallocated, short, full}; '
+        'per protocol (ShowNet, SandNet, ESP Net, Pathport) real-node send->receive over all addresses, same and '
+        'different receiver address; non-trivial = complete encode / whole decode / datagram handled; '
+        'distinct = distinct model output line')
+ASSUMPTIONS = ['frames have at most 512 slots (DmxBuffer invariant)',
+               'UDP delivery is the identity on datagrams (sendto/recvfrom interposed at link time)',
+               'little-endian x86-64 host (HostToLittleEndian is the identity)',
+               'encoded input to Decode shorter than 2^24 bytes (destination_index is an int in the C++)',
+               'operator new does not fail']
+TRUSTED = ['modelled rather than verified: RunLengthEncoder::Encode/Decode, DmxBuffer::Set/SetRange/SetRangeToValue/'
+           'Get(channel), ShowNetNode::BuildCompressedPacket/HandlePacket/HandleCompressedPacket (size check as '
+           'intended, see C06), SandNetNode::SendUncompressedDMX/SocketReady/HandleDMX, EspNetNode::SendEspData/'
+           'SocketReady/HandleData(raw), PathportNode::SendDMX/SocketReady/HandleDmxData; one registered handler per '
+           'receiver; wire constants and struct offsets regenerated into Gen.v',
+           'NOT covered by model or harness: Art-Net and E1.31 (both revisions) send/receive paths']
+SPEC_KEYS = ['lossless', 'clean', 'spec', 'handled', 'ret']
+INTERNAL_KEYS = []
+LEVEL_TEXT = ('Coq theorems, for all frames <= 512 slots and all capacities, about an executable model of '
+              'RunLengthEncoder::Encode/Decode + DmxBuffer::SetRange/SetRangeToValue (after fixes 01/02): Encode never '
+              'writes beyond the capacity, returns false exactly when slots were left out, and the bytes written decode '
+              '(real Decode loop, any start channel, any receiver buffer) to the encoded slots with all other slots '
+              'untouched.  PARTIAL: the per-protocol send->receive clause is NOT proved: ShowNet, SandNet, ESP Net and '
+              'Pathport are modelled (packet build + receive parse) and checked differentially on real node objects '
+              'against the model and the property\'s expected buffer; Art-Net and E1.31 (both revisions) are not covered.')
+LEVEL_NOTE = ('Trusted: Coq kernel, extraction (ExtrOcamlBasic), OCaml/C++ glue incl. the sendto/recvfrom interposers, '
+              'generator coverage of the correspondence; model = code is validated by differential testing, not proved; '
+              'receivers are modelled with a single registered handler; ShowNet receive size check modelled as intended.')
+TECHNIQUE = 'Coq proof on hand-written executable model + extracted-model/implementation differential correspondence'
+DESIGN_REF = 'DESIGN.md §4 C07'
+
+
+def hx(bs):
+    return ''.join('%02x' % b for b in bs) if bs else '-'
+
+
+def py_enc(f):
+    """generator-side reference of the (fixed) encoder, unbounded capacity; only used to aim capacities"""
+    n = len(f)
+    g = lambda j: f[j] if j < n else 0
+    i, out = 0, []
+    while i < n:
+        j = i + 1
+        while j < n and f[i] == g(j) and j - i < 127:
+            j += 1
+        if j - i > 2:
+            out += [0x80 | (j - i), f[i]]
+            i = j
+        else:
+            lim = (n - 2) & 0xffffffff
+            j = i + 1
+            while j < lim and j - i < 127:
+                if g(j) == g(j + 1) == g(j + 2):
+                    break
+                j += 1
+            if j >= lim:
+                j = n
+            if j - i > 127:
+                j = i + 127
+            out += [j - i] + f[i:j]
+            i = j
+    return out
+
+
+def notriple(rng, n, pairs=True):
+    """n slots without three equal in a row (pairs allowed when asked)"""
+    out = []
+    while len(out) < n:
+        v = rng.randrange(256)
+        if out and v == out[-1] and (not pairs or (len(out) > 1 and out[-2] == v)):
+            continue
+        out.append(v)
+    # never let the stretch start/continue a run with its neighbours: caller separates with distinct values
+    return out
+
+
+def run(v, k):
+    return [v] * k
+
+
+def frames(rng, quick):
+    """yield (kind, frame) aimed at the encoder's case splits"""
+    lens = ([0, 1, 2, 3, 4, 5, 126, 127, 128, 129, 130, 131, 253, 254, 255, 256, 257, 258, 381, 382, 383, 384,
+             508, 509, 510, 511, 512] + [rng.randrange(513) for _ in range(12 if quick else 120)])
+    if not quick:
+        lens = list(range(0, 513))
+    for n in lens:
+        yield 'random', [rng.randrange(256) for _ in range(n)]
+        yield 'equal', run(rng.randrange(256), n)
+        yield 'ramp', [(i * 7 + 3) & 255 for i in range(n)]
+        yield 'alt', [(17 if i & 1 else 200) for i in range(n)]
+        yield 'notriple', notriple(rng, n)
+        yield 'few', [rng.choice([0, 0, 0, 255, 7]) for _ in range(n)]
+    for k in (2, 3, 4, 126, 127, 128, 129, 130, 253, 254, 255, 256, 381, 382):
+        for pre in (0, 1, 2, 5):
+            for post in (0, 1, 2, 3, 126, 127, 128, 129):
+                a = notriple(rng, pre, False)
+                b = notriple(rng, post, False)
+                v = rng.choice([x for x in range(256) if (not a or a[-1] != x) and (not b or b[0] != x)])
+                fr = a + run(v, k) + b
+                if len(fr) <= 512:
+                    yield 'run%d' % k, fr
+    for t in (1, 2, 3, 125, 126, 127, 128, 129, 130, 131, 253, 254, 255, 256, 257, 258):
+        for prek in (0, 3, 5, 127, 130):
+            b = notriple(rng, t)
+            v = rng.choice([x for x in range(256) if x != b[0]])
+            yield 'tail%d' % t, (run(v, prek) + b)[:512]
+            # the same with a pair at the very end / start
+            if t >= 2:
+                b2 = list(b); b2[-1] = b2[-2]
+                if t < 3 or b2[-3] != b2[-1]:
+                    yield 'tail%dp' % t, (run(v, prek) + b2)[:512]
+    # frames whose encoded length equals their slot count (ShowNet raw/RLE ambiguity)
+    yield 'collide', [5, 5, 5, 7]
+    for _ in range(20 if quick else 300):
+        t = rng.choice([1, 2, 5, 50, 120, 126])
+        b = notriple(rng, t, False)
+        v = rng.choice([x for x in range(256) if x != b[0] and x != b[-1]])
+        fr = rng.choice([run(v, 3) + b, b + run(v, 3)])
+        yield 'collide', fr
+    for _ in range(10 if quick else 100):
+        # run of 4 (saves two bytes) + a literal stretch that needs two segments (costs two)
+        t = rng.choice([128, 129, 130, 200, 254])
+        b = notriple(rng, t, False)
+        v = rng.choice([x for x in range(256) if x != b[0]])
+        yield 'collide2', run(v, 4) + b
+
+
+def olds(rng, n):
+    return rng.choice(['none', 'none', hx([rng.randrange(1, 256) for _ in range(512)]),
+                       hx([rng.randrange(1, 256) for _ in range(rng.choice([1, 3, 10, max(1, n - 1), n or 1, min(512, n + 1)]))]),
+                       hx([rng.randrange(1, 256) for _ in range(rng.randrange(1, 513))])])
+
+
+def gen_cases(rng, tier):
+    quick = tier == 'quick'
+    fl = list(frames(rng, quick))
+    # ---- encoder: capacities
+    for kind, f in fl:
+        e = len(py_enc(f))
+        caps = {e - 2, e - 1, e, e + 1, e + 2, 512, 1310}
+        if quick:
+            caps |= set(rng.sample(range(0, 21), 3)) | {rng.randrange(0, e + 1)}
+        else:
+            caps |= set(range(0, 21)) | {rng.randrange(0, e + 1) for _ in range(4)}
+        for c in sorted(x for x in caps if x >= 0):
+            yield 'enc %d %s' % (c, hx(f))
+    # ---- decoder: truncations of valid encodings, random bytes, start channels, receiver states
+    starts = [0, 0, 0, 1, 100, 385, 500, 510, 511, 512, 513, 600]
+    sub = fl if not quick else rng.sample(fl, min(len(fl), 250))
+    for kind, f in sub:
+        e = py_enc(f)
+        cuts = {len(e)} | {rng.randrange(0, len(e) + 1) for _ in range(3)} | {max(0, len(e) - 1)}
+        for c in sorted(cuts):
+            yield 'dec %d %s %s' % (rng.choice(starts), olds(rng, len(f)), hx(e[:c]))
+    for _ in range(800 if quick else 20000):
+        n = rng.choice([0, 1, 2, 3, 5, 20, 100, rng.randrange(1, 300)])
+        bs = [rng.choice([rng.randrange(256), 0x80, 0x81, 0x7f, 0xff, 0, 1, 2]) for _ in range(n)]
+        yield 'dec %d %s %s' % (rng.choice(starts), olds(rng, n), hx(bs))
+    # ---- protocols
+    names = ['-', hx(b'ola'), hx(b'foobarbaz'), hx(b'a-very-long-name')]
+    for kind, f in fl:
+        if not f:
+            continue
+        reps = 1 if quick else 2
+        for _ in range(reps):
+            u = rng.randrange(8)
+            hu = u if rng.random() < 0.9 else rng.randrange(8)
+            yield 'sn %d %d %s %d %s %s' % (u, hu, olds(rng, len(f)), rng.choice([0, 1, 255, 256, 65535, rng.randrange(65536)]),
+                                            rng.choice(names), hx(f))
+    psub = fl if not quick else rng.sample(fl, min(len(fl), 260))
+    for kind, f in psub:
+        if not f:
+            continue
+        g, u = rng.choice([0, 1, 255, rng.randrange(256)]), rng.choice([0, 1, 255, rng.randrange(256)])
+        hg, hu = (g, u) if rng.random() < 0.85 else (rng.choice([g, (g + 1) & 255]), rng.choice([u, (u + 1) & 255]))
+        yield 'sa %d %d %d %d %d %s %s' % (g, u, rng.randrange(2), hg, hu, olds(rng, len(f)), hx(f))
+        u = rng.choice([0, 1, 255, rng.randrange(256)])
+        hu = u if rng.random() < 0.85 else (u + rng.choice([1, 255])) & 255
+        yield 'es %d %d %s %s' % (u, hu, olds(rng, len(f)), hx(f))
+        u = rng.choice([0, 1, 126, 127, rng.randrange(128)])
+        hu = u if rng.random() < 0.85 else (u + rng.choice([1, 127])) % 128
+        yield 'pp %d %d %s %d %d %s' % (u, hu, olds(rng, len(f)), rng.choice([0, 1, 0x28000fff, 0xffffffff, rng.randrange(1 << 32)]),
+                                        rng.choice([0, 1, 65535, rng.randrange(65536)]), hx(f))
+    if not quick:
+        # all addresses of the small address spaces
+        f = [1, 2, 3, 3, 3, 9]
+        for u in range(8):
+            for hu in range(8):
+                yield 'sn %d %d none 7 %s %s' % (u, hu, names[1], hx(f))
+        for u in range(128):
+            yield 'pp %d %d none 5 9 %s' % (u, u, hx(f))
+        for u in range(256):
+            yield 'es %d %d none %s' % (u, u, hx(f))
+            yield 'sa %d %d 0 %d %d none %s' % (u, 255 - u, u, 255 - u, hx(f))
+
+
+def nontrivial(payload, md):
+    op = payload.split(' ', 1)[0]
+    if op == 'enc':
+        return md.get('ret') == '1' and md.get('size') not in (None, '0')
+    if op == 'dec':
+        return md.get('dret') == '1' and md.get('dbuf') not in (None, 'none')
+    return md.get('handled') == '1'
